@@ -447,6 +447,28 @@ def check_hexcone_bounds(F, rep):
     rep.floor("hexcone bound evaluations", n, 52)
 
 
+def check_hexcone_formulas(F, rep):
+    """The hexcone conversions themselves (the same obligations as C02's, repeated here because they are this property's mechanism):
+    Rgb<-Hsv, Rgb<-Hsl total over the hue circle (every sector incl. the closing one), Hsv<->Hwb."""
+    from . import c02
+    from .common import check_ref
+    S = Session(F, app_canon=c02.app_canon)
+    impls = c02.conv_impls(F)
+    n = 0
+    for (tgt, src) in (("rgb::rgb::Rgb", "hsv::Hsv"), ("rgb::rgb::Rgb", "hsl::Hsl"), ("hwb::Hwb", "hsv::Hsv"), ("hsv::Hsv", "hwb::Hwb"),
+                       ("okhwb::Okhwb", "okhsv::Okhsv"), ("okhsv::Okhsv", "okhwb::Okhwb")):
+        lst = impls.get((tgt, src), [])
+        key = "%s<-%s" % (tgt.split("::")[-1], src.split("::")[-1])
+        if len(lst) != 1:
+            rep.fail("ANCHOR", "hexcone:" + key, "expected exactly one hand-written impl, found %d" % len(lst))
+            continue
+        im, b = lst[0]
+        ref = c02.DIRECT[(tgt, src)]
+        check_ref(rep, "ALG-REF", "hexcone:" + key, S, b, lambda R, c, ref=ref: ref(R, c), names=["c"])
+        n += 1
+    rep.floor("hexcone conversion formulas", n, 6)
+
+
 def max_of(S, vals):
     m = vals["red"]
     for k in ("green", "blue"):
@@ -467,7 +489,7 @@ def run(F, rep, tier="quick", extra=None, only=None):
     rep.trusted += ["rustc name resolution / type check", "operator table of rules/sym.py",
                     "Ottosson, 'Okhsv and Okhsl' (2021) reference implementation and the HSLuv reference implementation (rev 4), as transcribed in rules/c15.py",
                     "axioms sqrt(x)^2 = x, cbrt(x)^3 = x"]
-    for fn in (check_max_saturation, check_small_functions, check_cusp_and_chroma_values, check_duplicates, check_okhsl_curve, check_hsluv, check_hexcone_bounds):
+    for fn in (check_max_saturation, check_small_functions, check_cusp_and_chroma_values, check_duplicates, check_okhsl_curve, check_hsluv, check_hexcone_bounds, check_hexcone_formulas):
         try:
             fn(F, rep)
         except facts.AnchorMissing as ex:
